@@ -156,10 +156,11 @@ type Prelude struct {
 	Monotone map[string]bool // ghost counters that never decrease
 	Grows map[string]bool // ghost sets that only grow
 	StrLits map[string]string // string literal value -> prelude constant
+	AppendSum map[string][]string // element sort -> prefix-sum functions additive over append
 }
 
 func LoadPrelude(paths ...string) (*Prelude, error) {
-	p := &Prelude{Fns: map[string]*SpecFn{}, Ghosts: map[string]string{}, Consts: map[string]string{}, ModDeps: map[string][]string{}, AfterSorts: map[string]bool{}, ExtraDecl: map[string]string{}, Attach: map[string][]string{}, Monotone: map[string]bool{}, Grows: map[string]bool{}, StrLits: map[string]string{}}
+	p := &Prelude{Fns: map[string]*SpecFn{}, Ghosts: map[string]string{}, Consts: map[string]string{}, ModDeps: map[string][]string{}, AfterSorts: map[string]bool{}, ExtraDecl: map[string]string{}, Attach: map[string][]string{}, Monotone: map[string]bool{}, Grows: map[string]bool{}, StrLits: map[string]string{}, AppendSum: map[string][]string{}}
 	for _, path := range paths {
 		data, err := os.ReadFile(path)
 		if err != nil {
@@ -192,6 +193,13 @@ func LoadPrelude(paths ...string) (*Prelude, error) {
 				module = f[0]
 				for _, d := range f[1:] {
 					p.ModDeps[module] = append(p.ModDeps[module], d)
+				}
+				continue
+			}
+			if strings.HasPrefix(s, ";@appendsum") {
+				f := strings.Fields(strings.TrimPrefix(s, ";@appendsum"))
+				if len(f) == 2 {
+					p.AppendSum[f[0]] = append(p.AppendSum[f[0]], f[1])
 				}
 				continue
 			}
